@@ -292,7 +292,7 @@ def steady_state_transport_solver(
 
     # shift green function in Fourier space to measurement point
     if footprint:
-        shift = np.exp(1j * (Lx * (xm + halo) + Ly * (ym + halo)))
+        shift = np.exp(1j * (Lx * (xm + px * dx) + Ly * (ym + py * dy)))
         tfftp = tfftp * shift
         tfftq = tfftq * shift
     # shift such that xm, ym are in the middle of the domain
